@@ -165,12 +165,12 @@ theorem acyclic_iff_noCycle (h : Heap H) (hb : ∀ p c, c ∈ kids h p → c < h
     Acyclic h ↔ NoCycle h := ⟨noCycle_of_acyclic h, acyclic_of_noCycle h hb⟩
 
 /-- every heap along the history is free of cycles -/
-def NoCycleHist (hashFn : Data → List (Name × H) → H) : Heap H → List Op → Prop
+def NoCycleHist (hashFn : Data → List (EntryV H) → H) : Heap H → List Op → Prop
   | h, [] => NoCycle h
   | h, op :: ops => NoCycle h ∧ NoCycleHist hashFn (step hashFn h op).1 ops
 
 /-- along a history the invariant bounds the children, so "no cycles" gives `AcyclicHist` -/
-theorem acyclicHist_of_noCycleHist {hashFn : Data → List (Name × H) → H} :
+theorem acyclicHist_of_noCycleHist {hashFn : Data → List (EntryV H) → H} :
     ∀ (ops : List Op) (h : Heap H), Inv hashFn h → NoCycleHist hashFn h ops →
       AcyclicHist hashFn h ops := by
   intro ops
